@@ -579,7 +579,7 @@ func (h *handler1) handleConnect(ctx context.Context, snConnect *snPkts1.Connect
 		ProtocolVersion:  4,
 		ProtocolName:     "MQTT",
 		UsernameFlag:     h.cfg.MqttUser != nil,
-		PasswordFlag:     h.cfg.MqttPassword != nil,
+		PasswordFlag:     h.cfg.MqttUser != nil && h.cfg.MqttPassword != nil,
 		Password:         h.cfg.MqttPassword,
 		WillFlag:         snConnect.Will,
 	}
